@@ -24,7 +24,12 @@ func drawEnumFieldType(t *rapid.T) string {
 
 var nameWords = []string{"alt", "lat", "lon", "vx", "time", "boot", "ms", "target", "system", "param", "seq", "mode", "type", "id",
 	"count", "flags", "yaw", "q", "x", "y", "z", "data", "name", "status", "temp", "gps", "fix", "raw", "int", "cov",
-	"message", "messages", "enum", "field", "dialect"}
+	"message", "messages", "enum", "field", "dialect",
+	// words that mean something to the go tool at the end of a file name (F13)
+	"test", "arm", "linux", "windows", "js", "wasm", "amd64", "ios"}
+
+// goToolWords are the name endings of F13.
+var goToolWords = map[string]bool{"TEST": true, "ARM": true, "LINUX": true, "WINDOWS": true, "JS": true, "WASM": true, "AMD64": true, "IOS": true}
 
 // odd field names: legal XML, not invertible snake case (need a mavname tag)
 var oddFieldNames = []string{"param_1", "aB_c", "x__y", "UPPER", "tail_", "x1_y2", "Mixed_Case", "q_1_w", "Vx", "gps_2_raw"}
